@@ -35,6 +35,18 @@ def lifetimes(ck):
                 o = dict(obs)
                 o.update({'outcome': 'alive' if obs['alive_after_builds'] else 'exited', 'fail': [], 'gated': True, 'stderr_tail': ''})
                 found.append((o, V['C11']))
+    # eight dependency-only services and a build that fails once they are all up: none may survive the exit
+    for i in range(1 if ck.tier == 'quick' else 6):
+        r = random.Random(ck.rng.getrandbits(48))
+        T = {'s%d' % j: {'kind': 'service', 'deps': []} for j in range(8)}
+        T['bad'] = {'kind': 'build', 'deps': list(T)}
+        T['side'] = {'kind': 'build', 'deps': ['s0']}
+        obs, V = sysrun.oneshot(r, T, ['bad', 'side'], fail={'bad': r.choice([1, 3, 'K9'])}, gated=True, tag='C11f%d' % i, second_run=False)
+        ck.count(('svcfail', i), nontrivial=True, sample={'targets': '8 services + bad (fails) + side', 'outcome': obs['outcome'],
+                                                           'exit_code': obs['exit_code'], 'trace': obs['trace'][:12]})
+        ck.tally('svc:failing_build_with_8_services')
+        if 'C11' in V:
+            found.append((obs, V['C11']))
     # watch mode: services restarted by changes of their own input or of a producer must never overlap
     wf, _ = watchrun.campaign(ck, 'C11', 6 if ck.tier == 'quick' else 60, fixed=[
         ({'w0': {'kind': 'build', 'own_input': True, 'producers': [], 'deps': []},
